@@ -3606,6 +3606,10 @@ func restartSubtree(ctx context.Context, node *restartNode, parent *PID, tree *t
 	pid.cancelInFlightRequests(gerrors.ErrRequestCanceled)
 	_, wasInTree := tree.node(pid.ID())
 	didShutdown := false
+	// the shutdown embedded in the restart of a running actor goes through
+	// reset(), which zeroes restartCount; remember it so the count keeps
+	// accumulating across restarts
+	restarts := pid.restartCount.Load()
 	if pid.IsRunning() {
 		if err := pid.Shutdown(ctx); err != nil {
 			return err
@@ -3680,7 +3684,7 @@ func restartSubtree(ctx context.Context, node *restartNode, parent *PID, tree *t
 	pid.setState(suspendedState, false)
 	pid.startPassivation()
 
-	pid.restartCount.Inc()
+	pid.restartCount.Store(restarts + 1)
 	pid.fireSystemMessage(ctx, new(PostStart))
 	if pid.eventsStream != nil {
 		pid.eventsStream.Publish(eventsTopic, NewActorRestarted(pid.Path()))
